@@ -156,6 +156,24 @@ def positionsOf (quads : List (List Nat)) (faces : List (List V3)) (n : Nat) : L
 /-- `MeshSmoother.backport`: vertex `i` is moved to point `i` -/
 def backportMesh (p : List V3) : List V3 := (List.range p.length).map (pget p)
 
+/-! ### lattice-like grids (hypothesis of `T_C15_lattice_partial`, decided per grid) -/
+
+/-- lattice coordinates of the points of the structured map with `nx` cells per row -/
+def quadCoord (nx : Nat) (q : Nat) : V3 := ⟨(q % (nx + 1) : Nat), (q / (nx + 1) : Nat), 0⟩
+
+/-- `GridBase` addressing of the structured `nx × ny` quad map -/
+def structQuads (nx ny : Nat) : Grid :=
+  ⟨quadKind,
+   (List.range ny).flatMap (fun j => (List.range nx).map (fun i =>
+     [j * (nx + 1) + i, j * (nx + 1) + i + 1, (j + 1) * (nx + 1) + i + 1, (j + 1) * (nx + 1) + i])),
+   (nx + 1) * (ny + 1)⟩
+
+/-- the neighbours of every free inner junction are centrally symmetric in the labelling `coord` -/
+def latticeLikeB (g : Grid) (fixed : List Nat) (coord : Nat → V3) : Bool :=
+  (inner g).all (fun j => fixed.contains j ||
+    (!(junctionNbrs g j).isEmpty &&
+      vsum ((junctionNbrs g j).map coord) == V3.smul ((junctionNbrs g j).length : Rat) (coord j)))
+
 /-! ### line protocol -/
 
 /-- `a;b;c` of `[i,j,…]` lists -/
@@ -220,8 +238,22 @@ def handleSmooth (args : List String) : Option String :=
       some s!"P {showPts q} F {"|".intercalate (faces.map showPts)} R {showPts back}"
   | _ => none
 
+/-- `c15.lattice kind cells fixedIdx coords` → whether the labelling `coords` (one per point) is lattice-like -/
+def handleLattice (args : List String) : Option String :=
+  match args with
+  | [k, cells, fixedIdx, coords] => do
+      let kind ← kindOf? k
+      let cells ← parseCells? cells
+      let fi ← parseNatList? fixedIdx
+      let cs ← parsePts? coords
+      let g : Grid := ⟨kind, cells, cs.length⟩
+      if !wellFormed g then some "reject" else
+      some (toString (latticeLikeB g fi (pget cs)))
+  | _ => none
+
 def handle (op : String) (args : List String) : Option String :=
   match op with
+  | "c15.lattice" => handleLattice args
   | "c15.topo" => handleTopo args
   | "c15.smooth" => handleSmooth args
   | _ => none
